@@ -131,7 +131,7 @@ func collect(ch chan model.QueryRangeOutput, timeout time.Duration) (string, boo
 // ---------------------------------------------------------------------------------------------------------------
 type rowC struct {
 	ID    int     `json:"id"`
-	Fp    uint64  `json:"fp"`
+	Fp    uint64  `json:"fp,string"`
 	AbsFp int     `json:"abs_fp"`
 	Ts    int64   `json:"ts"`
 	Line  string  `json:"line,omitempty"`
@@ -208,7 +208,9 @@ func concretise(c *SpecCase, r *rand.Rand) *concrete {
 					row.Ts = base + int64(ats)*1000000000 // whole seconds: the vector writer prints seconds
 					row.Value = floatPool[(voff+id)%len(floatPool)]
 				}
-				row.ValS = strconv.FormatFloat(row.Value, 'g', -1, 64)
+				if c.W == "matrix" || c.W == "vector" {
+					row.ValS = strconv.FormatFloat(row.Value, 'g', -1, 64)
+				}
 				k.rows[id] = row
 				lbl := map[string]string{}
 				for a, v := range k.labels[afp] {
